@@ -50,6 +50,10 @@ func loadPrimes() (p, q *big.Int, err error) {
 }
 
 func (h *harness) paillier(flipBudget int) {
+	if os.Getenv("C08_P2048") != "" {
+		h.paillier2048(flipBudget)
+		return
+	}
 	pb, qb, err := loadPrimes()
 	if err != nil {
 		h.res.Note("Paillier n-th-root protocol skipped: %v", err)
